@@ -821,6 +821,8 @@ func checkC03(c *core.Ctx, r *core.Report) {
 		"(3) DEPENDS fast-path gates — canUseSSTForStats implies match-all ∧ segment fully enclosed ∧ no eval / values() / list() / non-ingest statistic, and the agile-tree gate implies segment fully enclosed ∧ match-all ∧ no time aggregation; the `fully enclosed` arguments are results of AreTimesFullyEnclosed on the query range; " +
 		"(4) ORDER (shared with C11) — the rotation hand-over and snapshot order; " +
 		"(6) SIBLING — every bloom check of the block pruning stage (rotated and open segments) is skipped for a negated match filter; " +
+		"(8) every value-appending arm of doLogEventFilling registers the record with the column's dictionary, so a dictionary-encoded block answers like a plain one (shared with C01); " +
+		"(7) LIVE — the per-segment flag that a persistent query matched something accumulates over the blocks of the segment (it decides whether the segment is skipped for that query after rotation); " +
 		"(5) RECSTART — the ingest-time matcher of persistent queries reads a column's last record as cbuf[cstartidx:cbufidx]: every per-record start of a column value (initAndBackFillColumn for present columns, the absent-column loop for the others) stores cstartidx = cbufidx before the record's bytes are appended, so the matcher never sees the previous record's value."
 	r.NotCovered = "equality of results across layouts, bloom contents vs probes, persistent-query bitsets vs raw search beyond the record-start clause, agile-tree/rollup contents, parallel-chain merge"
 	eq := core.EqualityCalls{}
@@ -865,6 +867,67 @@ func checkC03(c *core.Ctx, r *core.Report) {
 
 	// ---------------------------------------------------------------- (6)
 	checkBloomGate(c, r)
+
+	// ---------------------------------------------------------------- (7) a persistent query's "matched something in this segment" flag accumulates over blocks
+	{
+		fn := c.Fn(pkgWriter, "SegStore.AppendWipToSegfile")
+		flagF := c.Field(pkgWriter, "SegStore.pqNonEmptyResults")
+		isFlagMap := func(v ssa.Value) bool {
+			ld, ok := v.(*ssa.UnOp)
+			if !ok {
+				return false
+			}
+			fa, ok := ld.X.(*ssa.FieldAddr)
+			return ok && core.FieldOfAddr(fa) == flagF
+		}
+		n := 0
+		for _, b := range fn.Blocks {
+			for _, in := range b.Instrs {
+				mu, ok := in.(*ssa.MapUpdate)
+				if !ok || !isFlagMap(mu.Map) {
+					continue
+				}
+				n++
+				// the stored value is true, or depends on the entry's previous value
+				var dependsOnPrev func(v ssa.Value, depth int) bool
+				dependsOnPrev = func(v ssa.Value, depth int) bool {
+					if depth > 5 || v == nil {
+						return false
+					}
+					switch x := v.(type) {
+					case *ssa.Const:
+						return x.Value != nil && x.Value.String() == "true" && depth == 0
+					case *ssa.Lookup:
+						return isFlagMap(x.X)
+					case *ssa.Extract:
+						return dependsOnPrev(x.Tuple, depth+1)
+					case *ssa.BinOp:
+						return dependsOnPrev(x.X, depth+1) || dependsOnPrev(x.Y, depth+1)
+					case *ssa.Phi:
+						// a || b : phi [true (where a held), b]; the branch is on a
+						for _, p := range x.Block().Preds {
+							if ifi, ok := core.LastIf(p); ok && dependsOnPrev(ifi.Cond, depth+1) {
+								return true
+							}
+						}
+						for _, e := range x.Edges {
+							if _, isK := e.(*ssa.Const); !isK && dependsOnPrev(e, depth+1) {
+								return true
+							}
+						}
+					}
+					return false
+				}
+				r.Check(dependsOnPrev(mu.Value, 0), "LIVE", fmt.Sprintf("writer.SegStore.AppendWipToSegfile:pqNonEmptyResults-update#%d-accumulates-over-blocks", n), c.Pos(mu.Pos()),
+					"the flag is or-ed with its previous value (or set to true)",
+					"the per-segment flag `this persistent query matched something` is overwritten with the result of the block being flushed: a segment whose last block has no match is recorded as empty for the query, its result file is deleted at rotation, and the aggregation path skips the segment although earlier blocks matched")
+			}
+		}
+		r.Floor("LIVE", "updates of the persistent-query non-empty flag", n, 1)
+	}
+
+	// ---------------------------------------------------------------- (8) dictionary blocks list every record (shared with C01)
+	checkDictionaryOffer(c, r, nil)
 }
 
 // checkRecordStart: cstartidx is set to cbufidx at the start of every record's value in a column.
